@@ -605,10 +605,10 @@ class SDict(dict[K, V]):
 
         formatter = NativeFormatter()
         include_file_name = str(relative_file_path)
-        include_file_name = include_file_name.replace("\\", "\\\\")
-        include_file_name = formatter.format_value(include_file_name)
+        formatted_include_file_name = include_file_name.replace("\\", "\\\\")
+        formatted_include_file_name = formatter.format_value(formatted_include_file_name)
 
-        include_directive = f"#include {include_file_name}"
+        include_directive = f"#include {formatted_include_file_name}"
 
         ii: int = 0
         placeholder: str = ""
